@@ -9,6 +9,7 @@ import (
 	"strconv"
 	"strings"
 	"testing"
+	"time"
 
 	"github.com/cybergarage/go-redis/redis"
 	"verif/sim/resp"
@@ -278,6 +279,11 @@ func runC07(t *testing.T, tape *sim.Tape, tier string) *Outcome {
 		o.stat("runs_misbehaving_handler", 1)
 	}
 	cl.Sticky = tape.Draw(4, "sticky")
+	// simulated time passes at seed-chosen moments between the other events (timeouts, deadlines and timers of the
+	// code under test fire against this clock)
+	for i := tape.Draw(4, "nticks"); i > 0; i-- {
+		cl.Ticks = append(cl.Ticks, []time.Duration{50 * time.Millisecond, time.Second, 11 * time.Second, 61 * time.Second, 10 * time.Minute, 3 * time.Hour}[tape.Draw(6, "tick")])
+	}
 	// a quarter of the runs: the application supplies its own TLS configuration (client certificates optional or not
 	// requested) and offenders may come in through the TLS port, with or without a certificate
 	tlsOffenders := tape.Draw(4, "tlsoffenders") == 3
